@@ -234,12 +234,24 @@ def watchdog(seconds=20.0):
         signal.signal(signal.SIGALRM, old)
 
 
+class ImplAbort(Exception):
+    """Too many hangs: stop generating (each costs a watchdog delay)."""
+
+
+def _note_hang(R, what, ds):
+    R.count("impl:hang")
+    R.violation(f"{what}: the implementation did not terminate within the watchdog delay",
+                {k: ds[k] for k in ("grid", "cs", "sizes", "m", "s", "p", "ie", "de") if k in ds}, {})
+    if R.dist.get("impl:hang", 0) >= 2:
+        raise ImplAbort("implementation hangs repeatedly")
+
+
 def impl_write(R, ds, ops, strategy, name, info=None):
     try:
-        with watchdog():
+        with watchdog(10.0):
             return _impl_write(R, ds, ops, strategy, name, info)
     except ImplHang:
-        R.count("impl:hang")
+        _note_hang(R, "store_chunk ... close()", ds)
         return [["Hang"]], ["Hang"], {}, os.path.join(R.tmp, name)
 
 
@@ -277,7 +289,7 @@ def impl_fetch(R, d, ds, coords_list, via="url"):
         with watchdog():
             return _impl_fetch(R, d, ds, coords_list, via)
     except ImplHang:
-        R.count("impl:hang")
+        _note_hang(R, "fetch_chunk", ds)
         return [["Hang"] for _ in coords_list], "ShardedFileAccessor"
 
 
